@@ -76,7 +76,6 @@ Record flags : Type := {
   f_bytes : bool;         (* xpath_string_length/xpath_substring/xpath_translate count bytes *)
   f_strval : bool;        (* cast_string_recursive(): string value of inner nodes with line feeds and indentation *)
   f_predglobal : bool;    (* eval_predicate(): positions count over the whole step result, not per context node *)
-  f_rootstar : bool;      (* moveto_node_check(): the root matches '*' *)
   f_text : bool;          (* text nodes exist only as the result of child::text() on term nodes *)
   f_canon : bool;         (* set_comp_canonize(): string operand canonized by the type of the compared node *)
   f_nsaxis : bool         (* the namespace axis is a syntax error *)
@@ -84,11 +83,11 @@ Record flags : Type := {
 
 Definition spec_flags : flags :=
   {| f_prec := 53; f_bytes := false; f_strval := false; f_predglobal := false;
-     f_rootstar := false; f_text := false; f_canon := false; f_nsaxis := false |}.
+     f_text := false; f_canon := false; f_nsaxis := false |}.
 
 Definition impl_flags : flags :=
   {| f_prec := 64; f_bytes := true; f_strval := true; f_predglobal := true;
-     f_rootstar := true; f_text := true; f_canon := true; f_nsaxis := true |}.
+     f_text := true; f_canon := true; f_nsaxis := true |}.
 
 (* error classes *)
 Definition E_TYPE : N := 7.        (* LY_EVALID: wrong operand / argument type, unknown function, wrong arity *)
@@ -170,7 +169,7 @@ Definition node_test (fl : flags) (nt : ntest) (c m : item) : bool :=
   match nt with
   | TNode | TAny => true
   | TText => is_itext m
-  | TStar None => is_ielem m || (f_rootstar fl && match m with IRoot => true | _ => false end)
+  | TStar None => is_ielem m                 (* elements only: not the root (as coded since /repo c545a4e) *)
   | TStar (Some p) => match m with IElem y => beq_bytes (ni_mod (x_info y)) p | _ => false end
   | TName pfx nm =>
       match m with
